@@ -308,7 +308,11 @@ def size_job(args):
 # routes: metadata (re-)serialised by the library's own operations (spec/MetaRoutes.tla)
 # ---------------------------------------------------------------------------------------------------------
 
-def _foreign_file(rows0, nrg, seed=0):
+FOREIGN_KV = [("dup", "one"), ("solo", "s"), ("dup", "two"), ("", "e1"), ("drop", "x"), ("", "e2")]
+LIB_KV = [("origin", "lib"), ("drop", "x")]
+
+
+def _foreign_file(rows0, nrg, seed=0, kv=None):
     """a small valid file from 'another writer' (independent encoder), nrg row groups of 3 rows"""
     from ..pqspec import writer as PW
     schema = [{"name": "x", "type": "INT64", "repetition": "REQUIRED", "converted_type": None},
@@ -321,7 +325,7 @@ def _foreign_file(rows0, nrg, seed=0):
              "pages": [{"version": 1, "encoding": "PLAIN", "values": xs, "def_levels": None}]},
             {"path": ["s"], "codec": "UNCOMPRESSED", "dictionary": None, "statistics": "auto",
              "pages": [{"version": 1, "encoding": "PLAIN", "values": [b"a%d" % xs[0], b"b%d" % xs[2]], "def_levels": [1, 0, 1]}]}]})
-    return PW.build_file({"created_by": "parquet-mr version 1.12.0 (build abc)", "kv": {"origin": "foreign"},
+    return PW.build_file({"created_by": "parquet-mr version 1.12.0 (build abc)", "kv": kv or LIB_KV,
                           "schema": schema, "row_groups": rgs})
 
 
@@ -371,15 +375,15 @@ def route_job(args):
                 if P["store"] == "simple":
                     path = os.path.join(d, "data.parquet")
                     fp.write(path, _frame(pd, 0, 6), row_group_offsets=[0, 3], write_index=False,
-                             custom_metadata={"origin": "lib"})
+                             custom_metadata=dict(LIB_KV))
                 else:
                     path = os.path.join(d, "ds")
                     fp.write(path, _frame(pd, 0, 6), row_group_offsets=[0, 3], write_index=False, file_scheme="hive",
-                             custom_metadata={"origin": "lib"})
+                             custom_metadata=dict(LIB_KV))
             else:
                 if P["store"] == "simple":
                     path = os.path.join(d, "data.parquet")
-                    open(path, "wb").write(_foreign_file(0, 2))
+                    open(path, "wb").write(_foreign_file(0, 2, kv=FOREIGN_KV))
                 else:
                     path = os.path.join(d, "ds")
                     os.makedirs(path)
@@ -387,8 +391,10 @@ def route_job(args):
                         open(os.path.join(path, "part.%d.parquet" % g), "wb").write(_foreign_file(3 * g, 1))
             pf = fp.ParquetFile(path)
             steps = [("source", [3, 3])] + list(zip(P["prog"], P["hist"]))
+            kvs = [P["kv0"]] + list(P["kvhist"])
             derived = False
             for si, (op, want_rgs) in enumerate(steps):
+                want_kv = [(k, v) for k, v in kvs[si]]
                 sig = {"source": src, "op": op}
                 derived = derived or op == "slice"
                 try:
@@ -401,7 +407,7 @@ def route_job(args):
                                  file_scheme="simple" if P["store"] == "simple" else "hive")
                         pf = fp.ParquetFile(path)
                     elif op == "kvupdate":
-                        W.update_file_custom_metadata(path, {"origin": None, "step%d" % si: "v" * (si + 1)})
+                        W.update_file_custom_metadata(path, {"solo": "S%d" % si, "drop": None, "new%d" % si: "v"})
                         pf = fp.ParquetFile(path)
                     elif op == "remove":
                         pf.remove_row_groups(pf.row_groups[0:1])
@@ -434,6 +440,16 @@ def route_job(args):
                         if (kind in ("handle", "pickled-handle") or (kind in ("_metadata", "single file") and not derived)) \
                                 and got != list(want_rgs):
                             out["viol"].append((dict(a_sig, what="serialised metadata does not carry the handle's row groups"), pi))
+                        if P["store"] == "simple" and (kind in ("handle", "pickled-handle") or (kind == "single file" and not derived)):
+                            def _t(x):
+                                return x.decode("utf8", "replace") if isinstance(x, (bytes, bytearray)) else ("" if x is None else str(x))
+                            got_kv = [(_t(e.get("key")), _t(e.get("value"))) for e in (back.get("key_value_metadata") or [])
+                                      if _t(e.get("key")) != "pandas"]
+                            if got_kv != want_kv:
+                                lost = [e for e in want_kv if e not in got_kv]
+                                out["viol"].append((dict(a_sig, what="key-value entries of the serialised metadata differ from the model",
+                                                         lost_entries=bool(lost), repeated_or_empty_key_lost=any(
+                                                             e[0] in ("dup", "") for e in lost)), pi))
                     except Exception as e:  # noqa
                         out["viol"].append((dict(a_sig, what="serialised metadata cannot be decoded", exc=type(e).__name__), pi))
                         continue
